@@ -36,7 +36,32 @@ def _pairs(shape, level):
                     yield {"shape": shape, "c1": {"i": i1, "o": o1, "a": a1, "g": g1}, "c2": {"i": i2, "o": o2, "a": a2, "g": g2}}
 
 
+def _special():
+    io = {"i": ["i", "j"], "o": ["o"]}
+    # near-parallel guarantees across the operands (equal to ~5 significant digits): both must survive
+    for f in (1.00001, 0.999992, 1.0001):
+        for t in ([{"o": 1, "i": -1}, 0], [{"o": 1, "i": 1, "j": 2.5}, 1]):
+            tp = [{**t[0], "i": t[0]["i"] * f}, t[1]]
+            yield {"shape": "identical", "c1": {**io, "a": [], "g": [t]}, "c2": {**io, "a": [], "g": [tp]}, "special": "near-parallel"}
+            yield {"shape": "identical", "c1": {**io, "a": [[{"i": 1}, 1000]], "g": [t, [{"o": -1}, 0]]}, "c2": {**io, "a": [], "g": [[{"o": 1}, 2000], tp]},
+                   "special": "near-parallel"}
+    # an assumption of one operand that the other operand's guarantees imply must stay an assumption of the merge
+    for k in (5, 10):
+        yield {"shape": "identical", "c1": {**io, "a": [[{"i": 1}, k]], "g": [[{"o": 1}, 9]]}, "c2": {**io, "a": [], "g": [[{"i": 1, "o": -1}, 0], [{"o": 1}, 3]]},
+               "special": "implied-assumption"}
+        yield {"shape": "identical", "c1": {**io, "a": [[{"i": 1, "j": 2}, k]], "g": [[{"o": 1}, 9]]},
+               "c2": {**io, "a": [[{"j": -1}, 0]], "g": [[{"i": 1, "j": 2, "o": -1}, 0], [{"o": 1}, 8]]}, "special": "implied-assumption"}
+    # the same left operand merged with two different partners, one after the other
+    c1 = {"i": ["i"], "o": ["o"], "a": [], "g": [[{"o": 1, "i": -1}, 0]]}
+    c2 = {"i": ["i", "v"], "o": ["o"], "a": [], "g": [[{"o": 1, "v": -1}, 1]]}
+    c3 = {"i": ["i"], "o": ["o", "v"], "a": [], "g": [[{"v": 1, "i": -1}, 0]]}
+    yield {"shape": "sequence", "seq": [c1, c2, c3]}
+    yield {"shape": "sequence", "seq": [c1, c3, c2]}
+
+
 def cases(tier, seed):
+    for c in _special():
+        yield c
     sl = seed % NSLICES
     for sh in SHAPES:
         for k, c in enumerate(_pairs(sh, 0)):
@@ -59,6 +84,25 @@ def describe(tier, seed):
 
 def run_case(case):
     from pacti.utils.errors import IncompatibleArgsError
+
+    if case["shape"] == "sequence":
+        a, b, c = (contract(x) for x in case["seq"])
+        out = []
+        for k, partner in enumerate((b, c)):
+            sub = {"seq": k}
+            try:
+                m = a.merge(partner)
+            except Exception as e:  # noqa
+                out.append(("sequence:raised", False, None, {"sub": sub, "what": "merge %d of the same left operand with a well-formed partner raised %s" % (k, type(e).__name__)}))
+                continue
+            want_i = set(case["seq"][0]["i"]) | set(case["seq"][k + 1]["i"])
+            want_o = set(case["seq"][0]["o"]) | set(case["seq"][k + 1]["o"])
+            viol = None
+            if {v.name for v in m.inputvars} != want_i or {v.name for v in m.outputvars} != want_o:
+                viol = {"sub": sub, "what": "merge %d of the same left operand: interface in=%s out=%s is not the union in=%s out=%s" % (
+                    k, sorted(v.name for v in m.inputvars), sorted(v.name for v in m.outputvars), sorted(want_i), sorted(want_o))}
+            out.append(("returned", True, str(m), viol, {"shape:sequence": 1}))
+        return out
 
     try:
         c1, c2 = contract(case["c1"]), contract(case["c2"])
